@@ -124,7 +124,7 @@ func DiffFields(a, b []string) []string {
 	set := map[string]bool{}
 	for _, l := range DiffLines(a, b, 0) {
 		p := l[2:]
-		if i := strings.Index(p, " = "); i >= 0 {
+		if i := SepIndex(p); i >= 0 {
 			p = p[:i]
 		}
 		set[genericPath(p)] = true
@@ -135,6 +135,25 @@ func DiffFields(a, b []string) []string {
 	}
 	sort.Strings(out)
 	return out
+}
+
+// SepIndex returns the index of the " = " that separates path and value in a canonical line
+// (map keys may themselves contain " = " inside brackets/braces), or -1.
+func SepIndex(l string) int {
+	depth := 0
+	for i := 0; i+2 < len(l); i++ {
+		switch l[i] {
+		case '[', '{':
+			depth++
+		case ']', '}':
+			depth--
+		case ' ':
+			if depth == 0 && l[i+1] == '=' && l[i+2] == ' ' {
+				return i
+			}
+		}
+	}
+	return -1
 }
 
 func genericPath(p string) string {
@@ -195,6 +214,9 @@ func scalar(v reflect.Value) (string, bool) {
 	}
 	return "", false
 }
+
+// InlineKey renders a map key the way Canon does inside a path.
+func InlineKey(v reflect.Value) string { return inline(readable(v), &CanonOpts{}) }
 
 // inline renders a (small) value on one line — used for map keys and set elements.
 func inline(v reflect.Value, o *CanonOpts) string {
@@ -301,7 +323,12 @@ func (c *canon) walk(path, gpath string, v reflect.Value) {
 		sort.Slice(items, func(i, j int) bool { return items[i].k < items[j].k })
 		c.emit(path+".len", fmt.Sprint(len(items)))
 		for _, it := range items {
+			n := len(c.lines)
 			c.walk(path+"["+it.k+"]", gpath+"[*]", it.v)
+			if len(c.lines) == n {
+				// element without fields of its own (set membership): the key is the content
+				c.emit(path+"["+it.k+"]", "{}")
+			}
 		}
 	case reflect.Slice, reflect.Array:
 		n := v.Len()
